@@ -43,7 +43,7 @@ def execute(case):
     tops = list(case["tops"])
     T = len(tops)
     tr = {"kind": "c13", "case": case, "V": list(range(len(case["jd"]))), "jd": [list(j) for j in case["jd"]], "tops": tops,
-          "target": [[] for _ in tops], "g0": sorted([a, b, t, m] for a, b, t, m in case["edges"]), "calls": [], "overall": [], "raised": "", "first_again": []}
+          "target": [[] for _ in tops], "g0": sorted([a, b, t, m] for a, b, t, m in case["edges"]), "calls": [], "overall": [], "raised": "", "first_again": [], "first_keys_again": []}
     E = {t: sum(1 for e in case["edges"] if e[2] == t) for t in tops}
     try:
         ex = gcmpy.JointExcessJointDegree({TN.NETWORK: G, TN.EDGE_NAMES: tops})
@@ -61,9 +61,18 @@ def execute(case):
             tr["calls"].append({"matrices": sorted(mats, key=lambda x: x["t"]), "exkeys": exk})
         # the object returned by the FIRST extraction, encoded again after the last one: a later call must not change it
         m0 = held[0]
+        if case.get("edit_after") and G.number_of_nodes() > 2:
+            # ... nor may an extraction made after the caller EDITED the network (a vertex and its edges removed, so that joint
+            # degrees disappear): the earlier result is a value of its own, matrices and key lists alike
+            try:
+                G.remove_node(max(G.nodes()))
+                ex.get_ejks()
+            except Exception:
+                pass
         tr["first_again"] = sorted([{"t": str(t), "rows": _rows(d, 2 * E.get(t, 0) or 1, T)} for t, d in m0.ejks.items() if d or E.get(t, 0)],
                                    key=lambda x: x["t"])
-        ov = gcmpy.JointExcessDegree.get_ejk(G)
+        tr["first_keys_again"] = [{"t": str(t), "keys": sorted([int(x) for x in k] for k in ks)} for t, ks in sorted(m0.excess_degree_keys.items())]
+        ov = gcmpy.JointExcessDegree.get_ejk(build_graph(case))
         tr["overall"] = _rows({(j, k): v for (j, k), v in ov.items()}, 2 * len(case["edges"]) or 1, 1)
     except Exception as exn:
         tr["raised"] = "%s: %s" % (type(exn).__name__, str(exn)[:70])
@@ -87,7 +96,7 @@ def cases(chk):
             jd = [tuple(max(1, x + rng.choice([0, 0, 1])) for x in j) for j in jd]
         cs.append({"edges": es, "jd": jd, "tops": tops, "ncalls": rng.choice([1, 2, 3, 4]), "labels": rng.choice(["id", "shift", "big"]),
                    "jd_as_list": i % 3 == 1, "weights": i % 4 == 3,
-                   "pre_abort": [None, None, rng.random()][i % 3]})          # annotations stored as lists (the generators keep whatever sequence they get)
+                   "pre_abort": [None, None, rng.random()][i % 3], "edit_after": i % 2 == 0})          # annotations stored as lists (the generators keep whatever sequence they get)
     return cs
 
 
